@@ -261,7 +261,7 @@ theorem shape_type_wide {r0 : RS} (hcv : Canvas r0.g) {i : Nat} (hi : i < r0.g.s
   obtain ⟨hw1, _⟩ := view_plain hv1
   have hrow := shape_row hcv hi Ri ⟨i, j⟩ src[j].attrs
   obtain ⟨cellF, e, v, k⟩ := type_cell_wide W (g := (shape r0 i Ri ⟨i, j⟩ src[j].attrs).g)
-    (by simp only [shape]; exact hcv.cols_u16) src[j].attrs f _ zs Ri c0 c1 rfl hw ht.first ht.zero
+    (by simp only [shape]; exact hcv.cols_u16) src[j].attrs f _ zs Ri c0 c1 rfl (by omega) ht.first ht.zero
     (by simp only [shape]; have := ht.fits; omega) hrow (by simpa [shape] using hc0) hw0 hk0 h220
     (by simpa [shape] using hc1) hw1 ht.pre
   refine ⟨{ Ri with cells := (Ri.cells.set j cellF).set (j + 1) (contCell c1) }, ?_,
@@ -403,13 +403,13 @@ start of this line after the wrap has been recorded -/
 theorem typeChars_wraps {r0 : RS} (hcv : Canvas r0.g) {i : Nat} (hi1 : 1 ≤ i) (hi : i < r0.g.size.rows)
     {Ri Rp : Row} (hl : Ri.cells.length = r0.g.size.cols) (hp : r0.g.rows[i - 1]? = some Rp)
     {last : Cell} (hlast : Rp.cells[r0.g.size.cols - 1]? = some last) (hocc : (last.hasContents || last.cont) = true)
-    (pen : Attrs) (f : Nat) (zs : List Nat) (hw1 : 1 ≤ (W f).getD 1) (hwc : (W f).getD 1 ≤ r0.g.size.cols)
+    (pen : Attrs) (f : Nat) (zs : List Nat) (hw1 : 1 ≤ (W f).getD 1) (hwc : min ((W f).getD 1) 2 ≤ r0.g.size.cols)
     (hnc : ¬ (W f = none ∧ f < 256)) :
     typeChars W pen (f :: zs) (shape r0 i Ri ⟨i - 1, r0.g.size.cols⟩ pen).g =
       typeChars W pen (f :: zs) (shape (wrapBase r0 i Rp) i Ri ⟨i, 0⟩ pen).g := by
   rw [typeChars_cons, typeChars_cons]
   have hcv' := shape_canvas hcv hl (⟨i - 1, r0.g.size.cols⟩ : Pos) pen (i := i)
-  rw [text_wraps W hcv' pen f _ Rp last rfl hw1 hwc hnc rfl (shape_prev_row i hi1 Ri Rp _ pen hp)
+  rw [text_wraps W hcv' pen f _ Rp last rfl (by omega) hwc hnc rfl (shape_prev_row i hi1 Ri Rp _ pen hp)
     (by simp only [shape]; omega) hlast hocc]
   rw [shape_wrapNext i hi1 Ri Rp _ pen]
 
